@@ -354,10 +354,19 @@ func (d *Device) SemitoneReset() {
 	}
 }
 
+// forgetAxisValues empties the repeat filter of the axes: the stored values were shaped with the deadzones of the
+// mapping that was active, under another mapping the same number can stand for another position
+func (d *Device) forgetAxisValues() {
+	for identifier := range d.lastAnalogValue {
+		delete(d.lastAnalogValue, identifier)
+	}
+}
+
 func (d *Device) MappingDown() {
 	if d.mapping != 0 {
 		d.mapping--
 	}
+	d.forgetAxisValues()
 	if !d.noLogs {
 		log.Info(fmt.Sprintf("mapping down (%s)", d.config.KeyMappings[d.mapping].Name), d.logFields(logger.Action)...)
 	}
@@ -367,6 +376,7 @@ func (d *Device) MappingUp() {
 	if d.mapping != len(d.config.KeyMappings)-1 {
 		d.mapping++
 	}
+	d.forgetAxisValues()
 	if !d.noLogs {
 		log.Info(fmt.Sprintf("mapping up (%s)", d.config.KeyMappings[d.mapping].Name), d.logFields(logger.Action)...)
 	}
@@ -374,6 +384,7 @@ func (d *Device) MappingUp() {
 
 func (d *Device) MappingReset() {
 	d.mapping = 0
+	d.forgetAxisValues()
 	if !d.noLogs {
 		log.Info(fmt.Sprintf("mapping reset (%s)", d.config.KeyMappings[d.mapping].Name), d.logFields(logger.Action)...)
 	}
